@@ -8,6 +8,7 @@ package main
 import (
 	"encoding/json"
 	"fmt"
+	"regexp"
 	"sort"
 	"strings"
 	"time"
@@ -18,7 +19,7 @@ import (
 	"verif/harness/vlib"
 )
 
-var roles = []string{"unconnected", "child-of-dead-parents", "spouse-of-dead", "parent-of-dead-child", "shares-surname-with-dead", "shares-place-with-dead",
+var roles = []string{"unconnected", "child-of-dead-parents", "spouse-of-dead", "parent-of-dead-child", "shares-surname-with-dead", "shares-surname-sorts-first", "shares-place-with-dead",
 	"no-birth-at-all", "buried-but-no-death", "two-names", "source-citation", "nickname-and-note", "birth-date-phrase", "birth-date-without-year", "birth-date-empty"}
 
 // person block of a living person with marker prefix mk (e.g. "Zq7L") in a role; variant changes all personal data (for the hide differential).
@@ -29,9 +30,15 @@ type living struct {
 	variant int
 }
 
+// sharesSurname: the person carries a dead person's surname (only in variant 0: the variant of
+// the hide differential renames the person completely, surname included).
+func (l living) sharesSurname() bool {
+	return (l.role == "shares-surname-with-dead" || l.role == "shares-surname-sorts-first") && l.variant == 0
+}
+
 func (l living) markers() []string {
 	m := []string{l.mk + "given", l.mk + "alt", l.mk + "nick", l.mk + "note", l.mk + "occu"}
-	if l.role != "shares-surname-with-dead" {
+	if !l.sharesSurname() {
 		m = append(m, l.mk+"surn")
 	}
 	if l.role != "shares-place-with-dead" {
@@ -52,14 +59,18 @@ func (l living) lines(birthYear int) []string {
 		birthYear -= 3
 	}
 	surname := l.mk + "surn" + v
-	if l.role == "shares-surname-with-dead" {
+	if l.sharesSurname() {
 		surname = "Zq7Dsurn1"
+	}
+	given := l.mk + "given" + v
+	if l.role == "shares-surname-sorts-first" {
+		given = "Aa" + given // sorts before every dead bearer of the surname
 	}
 	place := l.mk + "place" + v + ", " + l.mk + "place" + v + "land"
 	if l.role == "shares-place-with-dead" {
 		place = "Zq7Dplace1, Deadland"
 	}
-	out := []string{fmt.Sprintf("0 @%s@ INDI", l.ptr), fmt.Sprintf("1 NAME %sgiven%s /%s/", l.mk, v, surname), "1 SEX F"}
+	out := []string{fmt.Sprintf("0 @%s@ INDI", l.ptr), fmt.Sprintf("1 NAME %s /%s/", given, surname), "1 SEX F"}
 	if l.role == "two-names" || true {
 		out = append(out, fmt.Sprintf("1 NAME %salt%s /%s/", l.mk, v, surname), "2 TYPE married")
 	}
@@ -276,13 +287,22 @@ func judge(k kase) (sigs [][2]string, crashed int, files int) {
 				if a[i].Name != b[i].Name {
 					add("hide-differential:file-name-differs", fmt.Sprintf("%q vs %q", a[i].Name, b[i].Name))
 				} else if a[i].Body != b[i].Body && a[i].Panic == "" && b[i].Panic == "" {
-					add("hide-differential:content-differs:"+pageKind(norm(a[i].Name)), fmt.Sprintf("file %q differs when only living people's data changes: %s", a[i].Name, firstDiff(a[i].Body, b[i].Body)))
+					// the header of every page counts the surnames of the surname list, which ignores
+					// -living (known root cause): a difference in that one number is named as such
+					na, nb := surnameBadge.ReplaceAllString(a[i].Body, "${1}N${3}"), surnameBadge.ReplaceAllString(b[i].Body, "${1}N${3}")
+					if na == nb {
+						add("hide-differential:surname-count-in-page-header", fmt.Sprintf("file %q: the number of surnames in the page header changes when only living people's data changes: %s", a[i].Name, firstDiff(a[i].Body, b[i].Body)))
+						continue
+					}
+					add("hide-differential:content-differs:"+pageKind(norm(a[i].Name)), fmt.Sprintf("file %q differs when only living people's data changes: %s", a[i].Name, firstDiff(na, nb)))
 				}
 			}
 		}
 	}
 	return
 }
+
+var surnameBadge = regexp.MustCompile(`(Surnames <span class="badge[^>]*>)(\d+)(</span>)`)
 
 func crashedPage(pages []pub.Page, name string) bool {
 	for _, p := range pages {
@@ -423,7 +443,7 @@ func main() {
 	vlib.Main(&vlib.Check{
 		ID:    "C17",
 		Level: "exploration",
-		Rule: "cases: a fixed cast of four dead people plus one living person in each of 14 roles (unconnected, child of dead parents, spouse of a dead person, parent of a dead child, sharing a dead person's surname, sharing a dead person's place, no birth recorded, buried but no death, two names, source citation, nickname and note, birth date that is a phrase / has no year / is empty) and every pair of roles (two living people); every personal string is a unique marker token; x {hide, placeholder} x all 64 page-group subsets (role pairs: 4 subsets in the quick tier) x jobs {1,2}; 'show' as the positive control; and the same document object published with 'show' first (page groups all / individuals+families). Marker search over every file name, body and link; hide differential (a second document that differs only in the living people's data must publish byte-identically); dead people's pages must exist with their names. " +
+		Rule: "cases: a fixed cast of four dead people plus one living person in each of 15 roles (unconnected, child of dead parents, spouse of a dead person, parent of a dead child, sharing a dead person's surname and sorting after / before its dead bearers, sharing a dead person's place, no birth recorded, buried but no death, two names, source citation, nickname and note, birth date that is a phrase / has no year / is empty) and every pair of roles (two living people); every personal string is a unique marker token; x {hide, placeholder} x all 64 page-group subsets (role pairs: 4 subsets in the quick tier) x jobs {1,2}; 'show' as the positive control; and the same document object published with 'show' first (page groups all / individuals+families). Marker search over every file name, body and link; hide differential (a second document that differs only in the living people's data must publish byte-identically); dead people's pages must exist with their names. " +
 			"Non-trivial = hide/placeholder cases with at least one page group; distinct by case.",
 		Assumptions: []string{
 			"living = born (current year - 40) without DEAT, or no birth at all; dead = born 1800-1860 with DEAT; nobody is within decades of the 100-year rule, so nothing depends on the day the check runs",
